@@ -1388,17 +1388,18 @@ def conjunctive_consumer(ctx, b, bb, t):
     fcl = closure_of_arg(ctx, b, expr_operand(b, t["args"][2])) if len(t["args"]) > 2 else None
     if fcl is None:
         return False, "fold closure not found"
-    # accumulator = first closure parameter (_2)
+    # accumulator = first closure parameter (_2; _1 for a named function)
+    acc_l = 2 if fcl.kind == "closure" else 1
     acc_used = False
     for s_ in fl.sources_local(fcl, 0, (), "taint"):
-        if s_.kind in ("param", "closure_param") and s_[1] == fcl.id and s_[2] == 2:
+        if s_.kind in ("param", "closure_param") and s_[1] == fcl.id and s_[2] == acc_l:
             acc_used = True
     if not acc_used:
         # control dependence on the accumulator
         for sb, blk in enumerate(fcl.blocks):
             if blk["term"]["k"] == "switch":
                 for s_ in sources_of_expr(ctx, fcl, strip_refs(switch_expr_(fcl, sb)), mode="taint"):
-                    if s_.kind in ("param", "closure_param") and s_[1] == fcl.id and s_[2] == 2:
+                    if s_.kind in ("param", "closure_param") and s_[1] == fcl.id and s_[2] == acc_l:
                         acc_used = True
     if acc_used:
         return True, "%s whose result depends on the accumulator" % p.split("::")[-1]
@@ -1644,6 +1645,61 @@ def progress_guard(ctx, body, bb, t):
     return False, "guards: %s" % [fmt_expr(strip_refs(de), body) for sb, de, vals in gs]
 
 
+def emptiness_polarity(ctx, body, e, depth=0):
+    """+1 if the boolean expression is true exactly when the walk it tests is
+    empty, -1 when non-empty, None if not recognised."""
+    e = strip_refs(e)
+    if depth > 4:
+        return None
+    if e.kind == "unop" and e[1] == "Not":
+        r = emptiness_polarity(ctx, body, e[2], depth + 1)
+        return -r if r else None
+    if e.kind == "call":
+        p = e[1]
+        if p.endswith("Option::<T>::is_none"):
+            return 1
+        if p.endswith("Option::<T>::is_some"):
+            return -1
+        if p == "std::iter::Iterator::any" and len(e[2]) > 1:
+            cl = closure_of_arg(ctx, body, e[2][1])
+            re_ = return_expr(cl) if cl is not None else None
+            if re_ is not None and re_.kind == "const" and str(re_[1]) in ("1", "true"):
+                return -1
+            return None
+        if p in ctx.fb.bodies:
+            cb = ctx.fb.bodies[p]
+            re_ = return_expr(cb)
+            return emptiness_polarity(ctx, cb, re_, depth + 1) if re_ is not None else None
+        return None
+    if e.kind == "binop" and e[1] in ("Eq", "Ne", "Gt", "Lt"):
+        a, b_ = strip_refs(e[2]), strip_refs(e[3])
+        cnt = a if is_const(b_, 0) else (b_ if is_const(a, 0) else None)
+        if cnt is not None and cnt.kind == "call" and cnt[1].endswith("::count"):
+            return 1 if e[1] == "Eq" else -1
+    return None
+
+
+def keep_polarity(ctx, fcl, adaptor):
+    """polarity of the emptiness test under which a filter / filter_map closure keeps its element"""
+    if adaptor == "std::iter::Iterator::filter":
+        re_ = return_expr(fcl)
+        return emptiness_polarity(ctx, fcl, re_) if re_ is not None else None
+    # filter_map: the `Some` result is control dependent on the predicate
+    for kind, dbb, si, x in get_defs(fcl).of(0):
+        if kind == "stmt" and x["rv"]["k"] == "agg" and x["rv"].get("variant") == "Some":
+            for sb, de, vals in cond_guards(fcl, dbb):
+                pol = emptiness_polarity(ctx, fcl, de)
+                if pol is None:
+                    continue
+                taken_true = "otherwise" in vals and "0" not in vals
+                taken_false = "0" in vals and "otherwise" not in vals
+                if taken_true:
+                    return pol
+                if taken_false:
+                    return -pol
+    return None
+
+
 def C13_rules(ctx, rule="K"):
     """K1-K5"""
     m, fl, fb = ctx.model, ctx.model.flow, ctx.fb
@@ -1663,6 +1719,20 @@ def C13_rules(ctx, rule="K"):
         e1 = strip_refs(expr_operand(rc, t["args"][1]))
         ok1 = e0.kind == "agg" and e0[2] == "rank::Rank" and is_const(e0[4][0], 0) and e1.kind == "call" and e1[1] in NODE_COUNT_FNS
         why = "initial ranks are vec![%s; %s]" % (fmt_expr(e0, rc), fmt_expr(e1, rc))
+    elif len(allocs) == 1 and allocs[0][4] == "std::iter::Iterator::collect" and allocs[0][1] == rc.id:
+        # repeat(Rank(0)).take(node_count).collect()
+        t = rc.blocks[allocs[0][2]]["term"]
+        chain = iterator_chain(ctx, rc, expr_operand(rc, t["args"][0]))
+        names = [c[0] for c in chain]
+        if names[:2] == ["std::iter::Iterator::take", "std::iter::repeat"] or names[:1] == ["std::iter::repeat_n"]:
+            if names[0] == "std::iter::repeat_n":
+                e0 = strip_refs(chain[0][2][2][0])
+                e1 = strip_refs(chain[0][2][2][1])
+            else:
+                e1 = strip_refs(chain[0][2][2][1])
+                e0 = strip_refs(chain[1][2][2][0])
+            ok1 = e0.kind == "agg" and e0[2] == "rank::Rank" and is_const(e0[4][0], 0) and e1.kind == "call" and e1[1] in NODE_COUNT_FNS
+            why = "initial ranks are repeat(%s).take(%s)" % (fmt_expr(e0, rc), fmt_expr(e1, rc))
     ctx.check(ok1, rule + "1", "init", where, "initial ranks are Rank(0) for node_count() entries", why)
     # K2: seeds = nodes without parents
     wl, others = worklist_loops(ctx, m.reach_bodies(rc.id))
@@ -1693,9 +1763,10 @@ def C13_rules(ctx, rule="K"):
                     bodies = m.reach_bodies(fcl.id)
                     has_parents = any(callee_path(t) == PARENTS for bx in bodies for _, t in bx.calls())
                     has_children = any(callee_path(t) == CHILDREN for bx in bodies for _, t in bx.calls())
-                    is_none = any((callee_path(t) or "").endswith("::is_none") for bx in bodies for _, t in bx.calls())
-                    seeds_ok = has_parents and not has_children and is_none
-                    why = "seed predicate uses parents=%s children=%s is_none=%s" % (has_parents, has_children, is_none)
+                    pol = keep_polarity(ctx, fcl, filt[0][0])
+                    seeds_ok = has_parents and not has_children and pol == 1
+                    why = "seed predicate uses parents=%s children=%s; element kept when the parent walk is %s" % (
+                        has_parents, has_children, {1: "empty", -1: "NON-empty", None: "?"}[pol])
         ctx.check(seeds_ok, rule + "2", "seeds", m.where(rc), "the work queue is seeded with exactly the nodes that have no parents", why)
     else:
         ctx.unverifiable(rule + "2", "seeds", where, "no worklist loop found in the rank calculation")
@@ -1922,6 +1993,29 @@ def subst_args(e, args):
         else:
             out.append(x)
     return E(tuple(out))
+
+
+def lift_expr(ctx, M, X, e, max_hops=4):
+    """Expression `e` in the frame of body X, rewritten into the frame of the
+    body M from which X is reached: X's parameters are replaced by the
+    arguments of its single call site inside the bodies reachable from M
+    (context-sensitive where a shared helper has one call per caller).
+    Returns (expr, frame body) -- frame is M on success."""
+    fb, m, fl = ctx.fb, ctx.model, ctx.model.flow
+    reach = m.reach(M.id)
+    hops = 0
+    while X.id != M.id and hops < max_hops:
+        hops += 1
+        if X.kind != "fn" or not has_arg_leaf(e):
+            break
+        callers = [(cb, cbb, ct) for (cb, cbb, ct) in fl.call_sites().get(X.id, []) if cb.id in reach and not fb.is_test_body(cb)]
+        if len(callers) != 1:
+            break
+        cb, cbb, ct = callers[0]
+        args = [strip_refs(expr_operand(cb, x)) for x in ct["args"]]
+        e = subst_args(e, args)
+        X = cb
+    return e, X
 
 
 def root_is_arg(e):
